@@ -176,4 +176,7 @@ def check(ctx) -> Result:
     from ..guards import canon
     need = [frozenset({canon(">", "value", "0.5")}), frozenset({canon("<=", "value", "1")})]
     res.add(all(nn in facts for nn in need), "E-range-validator", "Source.purity", pu.site(), pu.qualname, "purity accepted in (0.5, 1]", "purity validator does not enforce (0.5, 1]; established: " + "; ".join(" or ".join(map(str, f)) for f in facts), construct="purity")
+    from ..rules import rz_falsy
+    nz = rz_falsy.none_checks(ctx, res, "C06", rz_falsy.EMULATOR_EXTRA)
+    res.floor("Z functions scanned", nz, 3)
     return res
